@@ -101,10 +101,13 @@ class World:
             return w.ExecutionStrategy(resources=resources(s["req"]), batch_size=s["batch"], runtime=ET(s["runtime"]))
 
         self.profiles = []
+        # identity of a model is its WorkProfile object (unique id), never its name: in about half of the histories
+        # with several models all models carry the same name
+        same_name = len(spec["models"]) >= 2 and sum(s["batch"] for m in spec["models"] for s in m["strategies"]) % 2 == 0
         for i, m in enumerate(spec["models"]):
             self.profiles.append(
                 w.WorkProfile(
-                    name=f"M{i}",
+                    name="M" if same_name else f"M{i}",
                     execution_strategies=w.ExecutionStrategies([strategy(s) for s in m["strategies"]]),
                     loading_strategies=w.ExecutionStrategies([strategy(s) for s in m["load"]]),
                 )
@@ -187,8 +190,20 @@ class World:
         for s in prof.loading_strategies:
             if wk.can_accomodate_strategy(s):
                 wk.load_profile(prof, s)
+                self.note_load(widx, midx)
                 return True
         return False
+
+    # the harness's own record of which model (by object identity, never by name or by the worker's bookkeeping)
+    # was asked to be loaded on which worker and not evicted since
+    def note_load(self, widx, midx):
+        self.__dict__.setdefault("ind_loaded", {}).setdefault(widx, set()).add(midx)
+
+    def note_evict(self, widx, midx):
+        self.__dict__.setdefault("ind_loaded", {}).setdefault(widx, set()).discard(midx)
+
+    def ever_loaded(self, widx, midx):
+        return midx in self.__dict__.get("ind_loaded", {}).get(widx, set())
 
     def manual_evict(self, widx, midx):
         _, wk = self.worker_list[widx]
@@ -196,6 +211,7 @@ class World:
         if wk.is_available(prof) == R.EventTime.invalid():
             return False
         wk.evict_profile(prof)
+        self.note_evict(widx, midx)
         return True
 
     def advance(self, to: int):
@@ -375,6 +391,8 @@ def oracle_invocation(world: World, now: int, offered_tasks, placements, placed_
             e.work_profile.id == prof.id and e.worker_id == wid for e in evicts
         ):
             fails.append(("model-not-loaded-on-worker", f"tasks {names} worker {world.worker_idx[wid]}"))
+        elif prof.id in world.profile_idx and not world.ever_loaded(world.worker_idx[wid], world.profile_idx[prof.id]):
+            fails.append(("model-never-loaded-on-worker", f"tasks {names} worker {world.worker_idx[wid]} (independent bookkeeping by object identity)"))
         dmin = min(us(p.task.deadline) for p in g)
         if now + us(strat.runtime) > dmin:
             fails.append(("late-batch", f"now {now} + runtime {us(strat.runtime)} > min deadline {dmin}, tasks {names}"))
@@ -409,10 +427,14 @@ def apply_placements(world: World, now: int, placements):
     for p in placements:
         if p.placement_type == PT.EVICT_WORK_PROFILE:
             world.worker_pools.get_worker_pool(p.worker_pool_id).evict_profile(p.work_profile, p.worker_id)
+            if p.worker_id in world.worker_idx and p.work_profile.id in world.profile_idx:
+                world.note_evict(world.worker_idx[p.worker_id], world.profile_idx[p.work_profile.id])
         elif p.placement_type == PT.LOAD_WORK_PROFILE:
             world.worker_pools.get_worker_pool(p.worker_pool_id).load_profile(
                 p.work_profile, p.loading_strategy, p.worker_id
             )
+            if p.worker_id in world.worker_idx and p.work_profile.id in world.profile_idx:
+                world.note_load(world.worker_idx[p.worker_id], world.profile_idx[p.work_profile.id])
         elif p.placement_type == PT.CANCEL_TASK:
             if p.task.state.name in ("VIRTUAL", "RELEASED", "SCHEDULED"):
                 world.task_graph.cancel(p.task, ET(now))
